@@ -85,6 +85,7 @@ static void fill_row(void *row, int prec, int W, int nc, int y)
   }
 }
 
+static unsigned char *jc_cur;    /* marker data being written (freed on the error path too) */
 static void do_jc(char **f, int nf)
 {
   struct jpeg_compress_struct c; struct jpeg_error_mgr je;
@@ -92,13 +93,13 @@ static void do_jc(char **f, int nf)
   unsigned char *icc = NULL; size_t iccn = 0;
   int W, H, prec, psv, pt, restart, iccpos, y, nc, i;
   const char *cs, *samp, *mode, *jfif, *wj, *wa, *markers;
-  void *row = NULL;
+  void *volatile row = NULL;     /* assigned after setjmp, read on the error path */
   if (nf < 16) { puts("err usage"); return; }
   W = atoi(f[1]); H = atoi(f[2]); cs = f[3]; samp = f[4]; prec = atoi(f[5]); mode = f[6];
   psv = atoi(f[7]); pt = atoi(f[8]); restart = atoi(f[9]); jfif = f[10]; wj = f[11]; wa = f[12];
   iccpos = atoi(f[13]); icc = unhex(f[14], &iccn); markers = f[15];
   c.err = jpeg_std_error(&je); je.error_exit = my_exit; je.emit_message = my_emit; je.output_message = my_output;
-  if (setjmp(jb)) { printf("err %d %s\n", last_err, last_msg); jpeg_destroy_compress(&c); free(out); free(icc); free(row); return; }
+  if (setjmp(jb)) { printf("err %d %s\n", last_err, last_msg); jpeg_destroy_compress(&c); free(out); free(icc); free((void *)row); free(jc_cur); jc_cur = NULL; return; }
   jpeg_create_compress(&c);
   jpeg_mem_dest(&c, &out, &outsz);
   c.image_width = W; c.image_height = H;
@@ -141,27 +142,27 @@ static void do_jc(char **f, int nf)
       if (*p == ':') p++;
       e = strchr(p, ','); if (!e) e = p + strlen(p);
       tmp = (char *)malloc((size_t)(e - p) + 1); memcpy(tmp, p, (size_t)(e - p)); tmp[e - p] = 0;
-      d = unhex(tmp, &n); free(tmp);
+      d = unhex(tmp, &n); free(tmp); jc_cur = d;
       if (iccn && iccpos == k) jpeg_write_icc_profile(&c, icc, (unsigned)iccn);
       if (n & 1) {                 /* odd length: exercise the piecemeal API */
         size_t j; jpeg_write_m_header(&c, code, (unsigned)n);
         for (j = 0; j < n; j++) jpeg_write_m_byte(&c, d[j]);
       } else jpeg_write_marker(&c, code, d, (unsigned)n);
-      free(d); k++;
+      free(d); jc_cur = NULL; k++;
       p = *e ? e + 1 : e;
     }
   }
   if (iccn && iccpos < 0) jpeg_write_icc_profile(&c, icc, (unsigned)iccn);
   row = malloc((size_t)W * nc * 2 + 16);
   for (y = 0; y < H; y++) {
-    fill_row(row, c.data_precision, W, nc, y);
+    fill_row((void *)row, c.data_precision, W, nc, y);
     if (c.data_precision <= 8) { JSAMPROW r = (JSAMPROW)row; jpeg_write_scanlines(&c, &r, 1); }
     else if (c.data_precision <= 12) { J12SAMPROW r = (J12SAMPROW)row; jpeg12_write_scanlines(&c, &r, 1); }
     else { J16SAMPROW r = (J16SAMPROW)row; jpeg16_write_scanlines(&c, &r, 1); }
   }
   jpeg_finish_compress(&c);
   fputs("ok ", stdout); puthex(out, outsz); putchar('\n');
-  jpeg_destroy_compress(&c); free(out); free(icc); free(row);
+  jpeg_destroy_compress(&c); free(out); free(icc); free((void *)row);
 }
 
 /* ------------------------------------------------------------- libjpeg read */
